@@ -158,6 +158,15 @@ class WebSocket(object):
     def session(self):
         return self.state.session
 
+    @classmethod
+    def _get_session(cls, state):
+        """Get the session for a state (there is none until `connect`
+        has created it)."""
+        session = state.session
+        if session is None:
+            raise errors.WebSocketUnavailable('not connected')
+        return session
+
     @property
     def key(self):
         return self.state.key
@@ -264,13 +273,17 @@ class WebSocket(object):
             if len(_reason) > 123:
                 # Control frames are limited to 125 bytes (2 for the code)
                 raise ValueError('reason should be <= 123 bytes (encoded)')
-        if self.is_closed:
+        # The state is replaced by connect(), which may be called on
+        # another thread; this close belongs to a single connection
+        state = self.state
+        if state.closed:
             log.debug('%r already closed', self)
         else:
-            if not self.is_closing:
-                self._send_close(code, reason)
-                self.state.closing = True
-                self.state.sent_close_time = self.session.session_time
+            if not state.closing:
+                self._send_close(code, reason, state)
+                state.closing = True
+                if state.session is not None:
+                    state.sent_close_time = state.session.session_time
 
     def _on_close(self, message):
         """Close logic generator."""
@@ -476,7 +489,7 @@ class WebSocket(object):
             raise TypeError('data argument must be bytes')
         if len(data) > 125:
             raise ValueError('ping data should be <= 125 bytes')
-        self.session.send(Opcode.PING, data)
+        self._get_session(self.state).send(Opcode.PING, data)
 
     def send_pong(self, data):
         """Send a pong packet.
@@ -495,7 +508,7 @@ class WebSocket(object):
             raise TypeError('data argument must be bytes')
         if len(data) > 125:
             raise ValueError('pong data should be <= 125 bytes')
-        self.session.send(Opcode.PONG, data)
+        self._get_session(self.state).send(Opcode.PONG, data)
 
     def send_binary(self, data, compress=True):
         """Send a binary message.
@@ -508,18 +521,23 @@ class WebSocket(object):
         """
         if not isinstance(data, bytes):
             raise TypeError('data argument must be bytes')
-        if compress and self.state.compression:
-            with self.state.compress_lock:
-                _payload = self.state.compression.compress(data)
+        # The state is replaced by connect(), which may be called on
+        # another thread; this message belongs to a single connection
+        state = self.state
+        if compress and state.compression:
+            with state.compress_lock:
+                _payload = state.compression.compress(data)
                 try:
-                    self.session.send_compressed(Opcode.BINARY, _payload)
+                    self._get_session(state).send_compressed(
+                        Opcode.BINARY, _payload
+                    )
                 except errors.WebSocketError:
                     # The server never saw this message, the next one
                     # must not refer back to it
-                    self.state.compression.reset_compressor()
+                    state.compression.reset_compressor()
                     raise
         else:
-            self.session.send(Opcode.BINARY, data)
+            self._get_session(state).send(Opcode.BINARY, data)
 
     def send_json(self, _obj=Ellipsis, **kwargs):
         """Encode an object as JSON and send a text message.
@@ -559,24 +577,31 @@ class WebSocket(object):
         if not isinstance(text, six.text_type):
             raise TypeError('text argument must not be bytes')
         payload = text.encode('utf-8')
-        if compress and self.state.compression:
-            with self.state.compress_lock:
-                _payload = self.state.compression.compress(payload)
+        # The state is replaced by connect(), which may be called on
+        # another thread; this message belongs to a single connection
+        state = self.state
+        if compress and state.compression:
+            with state.compress_lock:
+                _payload = state.compression.compress(payload)
                 try:
-                    self.session.send_compressed(Opcode.TEXT, _payload)
+                    self._get_session(state).send_compressed(
+                        Opcode.TEXT, _payload
+                    )
                 except errors.WebSocketError:
                     # The server never saw this message, the next one
                     # must not refer back to it
-                    self.state.compression.reset_compressor()
+                    state.compression.reset_compressor()
                     raise
         else:
-            self.session.send(Opcode.TEXT, payload)
+            self._get_session(state).send(Opcode.TEXT, payload)
 
-    def _send_close(self, code, reason):
+    def _send_close(self, code, reason, state=None):
         """Send a close frame."""
         frame_bytes = Frame.build_close_payload(code, reason)
         try:
-            self.session.send(Opcode.CLOSE, frame_bytes)
+            self._get_session(
+                self.state if state is None else state
+            ).send(Opcode.CLOSE, frame_bytes)
         except (errors.WebSocketUnavailable, errors.TransportFail):
             return False
         else:
